@@ -174,3 +174,49 @@ def rule_handback(k):
                 k.fail("C13.slots", kind, f"array {arr}", "allocated array is never handed back (leak)")
         k.ok("C13.slots", n, sample=f"{kind}: slots {sorted(map(str, slot_of))}")
     # compute must not touch the struct or allocate (C04.4 covers); counted here for C13
+
+
+def rule_bucket_init(k):
+    """C05 initialised reads: the only output cells a kernel reads back are bucket cells, and every
+    bucket is zeroed over its whole extent immediately after it is declared (same statement list, before
+    any other use): `b = vals + off; k = 0; while (k < prod D) { b[k] = 0; k++ }`."""
+    IR = kir.IR
+    info = get_info(k)
+    for kind in ("evaluate", "compute"):
+        fn = k.kernels[kind]
+        roles = get_roles(k, kind)
+        k.instance("C05.bucket-init")
+        for node in kir.all_nodes(fn.body):
+            if not isinstance(node, (IR.Branch, IR.Loop)) and node is not fn.body:
+                continue
+            arms = [node.if_true, node.if_false] if isinstance(node, IR.Branch) else [node.body] if isinstance(node, IR.Loop) else [node]
+            for arm in arms:
+                lst = kir.body_list(arm)
+                for i, s in enumerate(lst):
+                    if isinstance(s, IR.DeclarationAssignment) and roles.kind(s.target.name.name) == "bucket":
+                        b = s.target.name.name
+                        ok = False
+                        if i + 2 < len(lst) + 0:
+                            d, loop = lst[i + 1], lst[i + 2]
+                            if (
+                                isinstance(d, IR.DeclarationAssignment)
+                                and kir.is_int(d.value, 0)
+                                and isinstance(loop, IR.Loop)
+                                and isinstance(loop.condition, IR.LessThan)
+                                and loop.condition.left == IR.Variable(d.target.name.name)
+                            ):
+                                kv = IR.Variable(d.target.name.name)
+                                body = kir.body_list(loop.body)
+                                ok = body == [
+                                    IR.Assignment(IR.ArrayIndex(IR.Variable(b), kv), IR.IntegerLiteral(0)),
+                                    IR.Assignment(kv, IR.Add(kv, IR.IntegerLiteral(1))),
+                                ]
+                        if ok:
+                            k.ok("C05.bucket-init")
+                        else:
+                            k.fail(
+                                "C05.bucket-init",
+                                kind,
+                                norm_text(pps(s)),
+                                "bucket is not zeroed over its extent right after its declaration: accumulation reads uninitialised memory",
+                            )
